@@ -17,8 +17,13 @@ def check_filter_clients(ctx, res, funcs, pure_param="hg"):
     eff = Effects(ctx)
     for d in funcs:
         if d not in VISITS:  # internal helpers: the public wrappers validate
-            M.check_exclusion(ctx, res, d)
-        M.check_none_tests(ctx, res, d)
-        F.check_use(ctx, res, d, ("order", "size"))
-        check_pure(ctx, eff, res, d, roots=(pure_param,))
-    F.check_forwarding(ctx, res, funcs)
+            with res.guard("M.check_exclusionctx, res, d"):
+                M.check_exclusion(ctx, res, d)
+        with res.guard("M.check_none_testsctx, res, d"):
+            M.check_none_tests(ctx, res, d)
+        with res.guard("F.check_usectx, res, d, order, size"):
+            F.check_use(ctx, res, d, ("order", "size"))
+        with res.guard("check_purectx, eff, res, d, rootspure_param,"):
+            check_pure(ctx, eff, res, d, roots=(pure_param,))
+    with res.guard("F.check_forwardingctx, res, funcs"):
+        F.check_forwarding(ctx, res, funcs)
